@@ -138,7 +138,7 @@ def check_struct(f, rep, name, parse_b, write_b, adt_suffix):
         if efield is None:
             # writer emits a constant (reserved bytes)
             k = emis[i][2].args[1]
-            zero = False
+            zero = emis[i][1].startswith("('repeat', ('const', '0_u8'),")     # untouched part of a zero-initialised record buffer
             for lf in write_b.origins(k, passthrough={}):
                 if lf["kind"] == "const" and set(lf["k"].get("alloc", "x")) <= {"0"}:
                     zero = True
